@@ -276,5 +276,7 @@ def report_conn(chk, outs, pflags, claim, what=None):
                 fault = json.dumps((o.get("plan") or {}).get("handshake") or [x.get("fault") for x in (o.get("plan") or {}).get("exchanges", []) if x.get("fault")])[:200]
                 ops = [c["op"] for c in o.get("calls", [])]
                 chk.violation("%s:%s:%s" % (ops[-2] if len(ops) > 1 else ops[0], f, fault), "%s; calls %s, fault %s" % ((what or {}).get(f, f), ops, fault), brief_scenario(o))
+            elif pre.startswith("D"):
+                chk.drift("L4-stream", f, {"calls": [c["op"] for c in o.get("calls", [])], "tag": o.get("tag")})
             else:
                 chk.notes.append("scenario flagged for another property (%s)" % f)
